@@ -30,6 +30,7 @@ def schedules(c):
     scheds = gb.catalogue()
     scheds += gb.simulate(c, n // 2, ["A", "B"], 2, 12, 14, False)
     scheds += gb.simulate(c, n // 2, ["A", "B", "C"], 2, 14, 18, False)
+    scheds += gb.simulate(c, n // 3, ["A", "B"], 2, 12, 16, False, remotes=("origin", "backup"))
     scheds += gb.uniform(c, n // 3, ["A", "B"]) + gb.uniform(c, n // 3, ["A", "B", "C"])
     return scheds
 
@@ -43,7 +44,7 @@ def liveness(c):
     maxc, reserve, reps = (8, 4, "A, B") if c.tier == "quick" else (10, 5, "A, B")
     for name, spec in (("MC_GitBugLive_run.cfg", "LSpec"), ("MC_GitBugLive_nomerge_run.cfg", "LSpecNoMerge")):
         with open(os.path.join(d, name), "w") as f:
-            f.write("SPECIFICATION %s\nCONSTANTS\n  Replica = {%s}\n  NBug = 1\n  Author = {u1, u2}\n  MaxHop = 1000\n  MaxCommit = %d\n  RankDir = 1\n"
+            f.write("SPECIFICATION %s\nCONSTANTS\n  Replica = {%s}\n  Remote = {origin}\n  NBug = 1\n  Author = {u1, u2}\n  MaxHop = 1000\n  MaxCommit = %d\n  RankDir = 1\n"
                     "  WithRestart = FALSE\n  LoaderLess = FALSE\n  Reserve = %d\nINVARIANTS AllReadable RoomForMerges\nPROPERTY EventuallySame\nCHECK_DEADLOCK FALSE\n" % (spec, reps, maxc, reserve))
     c.tlc_model("MC_GitBugLive", "MC_GitBugLive_run.cfg", timeout=3000, label="liveness: editing stops, fair synchronisation => eventually always identical replicas (<= %d commits, %d of them reserved for merges)" % (maxc, reserve))
     r = c.tlc("MC_GitBugLive", "MC_GitBugLive_nomerge_run.cfg", timeout=3000, label="witness: without fair merges convergence must fail")
